@@ -258,3 +258,16 @@ NOTES = {
 for _p, _c in PROPS.items():
     _c.setdefault("level_note", BASE_NOTE + NOTES.get(_p, ""))
     _c.setdefault("design_ref", "DESIGN.md §2 " + _p + " (plan) and §7.2/§7.6 (as built)")
+
+
+# ---- the Go -> Lean translator (DESIGN §7.8): which properties have theorems about regenerated definitions
+TRANS_TECH = ("Lean 4 machine-checked proof: (a) theorems about definitions a translator (extract/trans.go) regenerates from the current Go source of {fns} "
+              "on every run, (b) theorems over a hand-written model; both tied to the code: (a) by regeneration, (b) by a differential correspondence check against the Go code")
+TRANS_TB = ("the Go->Lean translator (extract/trans.go: go/ast + go/types over a subset of Go; conventions in its header and in Model/GoSem.lean: errors as values, nil "
+            "dereference = panic, receivers non-nil, time as integers, url.URL.String() opaque, untranslated callees as arbitrary functions in Env; arguments of fmt.Errorf are not evaluated)")
+for pid, fns in {"C01": "parseResponse / parseAssertion / parseEncryptedAssertion",
+                 "C02": "validateAssertion / parseResponse", "C03": "validateAssertion / validateAudienceRestriction / parseResponse",
+                 "C04": "validateRequestID / validateAssertion / parseResponse", "C05": "IdpAuthnRequest.Validate (from the Destination check on) / getACSEndpoint",
+                 "C18": "validateLogoutResponse"}.items():
+    PROPS[pid]["technique"] = TRANS_TECH.format(fns=fns)
+    PROPS[pid]["trusted_base"] = list(PROPS[pid].get("trusted_base", [])) + [TRANS_TB]
